@@ -135,6 +135,10 @@ macro_rules! transcript_path {
         $t.push(format!("with_file_name {}", show(&p.with_file_name($a), w)));
         $t.push(format!("with_extension {}", show(&p.with_extension($a), w)));
         $t.push(format!("to_path_buf {}", show(&p.to_path_buf(), w)));
+        #[cfg(feature = "std")]
+        {
+            $t.push(format!("absolutize {}", show_o(p.absolutize().ok(), w)));
+        }
     }};
 }
 
@@ -191,6 +195,10 @@ macro_rules! transcript_buf {
             $t.push(format!("join_checked {}", match p.join_checked($a) { Ok(x) => show(&x, w), Err(e) => format!("err:{:?}", e) }));
             $t.push(format!("with_file_name {}", show(&p.with_file_name($a), w)));
             $t.push(format!("with_extension {}", show(&p.with_extension($a), w)));
+            #[cfg(feature = "std")]
+            {
+                $t.push(format!("absolutize {}", show_o(p.absolutize().ok(), w)));
+            }
             $t.push(format!("to-unix {} {:?}", show(&p.with_unix_encoding(), false), p.with_unix_encoding_checked().map(|x| show(&x, false))));
             $t.push(format!("to-windows {} {:?}", show(&p.with_windows_encoding(), true), p.with_windows_encoding_checked().map(|x| show(&x, true))));
         }
@@ -233,6 +241,7 @@ fn wq_partial_bytes(s: &[u8]) -> String {
         ($name:expr, $c:expr) => {{
             let c = $c;
             v.push(format!("{}:{}{}{}{}{}:{}", $name, c.has_prefix() as u8, c.has_any_verbatim_prefix() as u8, c.has_physical_root() as u8, c.has_implicit_root() as u8, c.has_root() as u8, c.prefix().map(|x| hex(x.as_bytes())).unwrap_or_default()));
+            v.push(format!("kinds:{}{}{}{}{}{}:{:?}", c.has_verbatim_prefix() as u8, c.has_verbatim_unc_prefix() as u8, c.has_verbatim_disk_prefix() as u8, c.has_device_ns_prefix() as u8, c.has_unc_prefix() as u8, c.has_disk_prefix() as u8, c.prefix().map(|x| x.kind().is_verbatim())));
         }};
     }
     let mut c = p.components();
@@ -257,6 +266,7 @@ fn wq_partial_utf8(s: &str) -> String {
         ($name:expr, $c:expr) => {{
             let c = $c;
             v.push(format!("{}:{}{}{}{}{}:{}", $name, c.has_prefix() as u8, c.has_any_verbatim_prefix() as u8, c.has_physical_root() as u8, c.has_implicit_root() as u8, c.has_root() as u8, c.prefix().map(|x| hex(&x.as_str().tob())).unwrap_or_default()));
+            v.push(format!("kinds:{}{}{}{}{}{}:{:?}", c.has_verbatim_prefix() as u8, c.has_verbatim_unc_prefix() as u8, c.has_verbatim_disk_prefix() as u8, c.has_device_ns_prefix() as u8, c.has_unc_prefix() as u8, c.has_disk_prefix() as u8, c.prefix().map(|x| x.kind().is_verbatim())));
         }};
     }
     let mut c = p.components();
@@ -443,8 +453,10 @@ fn t_bytes(win: bool, s: &[u8], a: &[u8]) -> Vec<String> {
             t.push(format!("to-windows {} {:?}", hex(p.with_windows_encoding().as_bytes()), p.with_windows_encoding_checked().map(|x| hex(x.as_bytes()))));
             let c = p.components();
             t.push(format!("wq {} {} {} {} {}", c.has_prefix(), c.has_any_verbatim_prefix(), c.has_physical_root(), c.has_implicit_root(), c.prefix().map(|x| hex(x.as_bytes())).unwrap_or_default()));
+            t.push(format!("wq-kinds {}{}{}{}{}{} {:?}", c.has_verbatim_prefix() as u8, c.has_verbatim_unc_prefix() as u8, c.has_verbatim_disk_prefix() as u8, c.has_device_ns_prefix() as u8, c.has_unc_prefix() as u8, c.has_disk_prefix() as u8, c.prefix().map(|x| x.kind().is_verbatim())));
             t.push(wq_partial_bytes(&s));
             extras_bytes!(t, p, WindowsPathBuf::from(s.as_slice()));
+            t.push(format!("x.with_capacity {}", { let mut b = WindowsPathBuf::with_capacity(9); b.push(p); hex(b.as_bytes()) }));
         } else {
             transcript_path!(t, UnixPath::new(&s), a.as_slice(), win);
             transcript_buf!(t, UnixPathBuf::from(s.as_slice()), a.as_slice(), win);
@@ -459,6 +471,7 @@ fn t_bytes(win: bool, s: &[u8], a: &[u8]) -> Vec<String> {
             t.push(format!("to-unix {} {:?}", hex(p.with_unix_encoding().as_bytes()), p.with_unix_encoding_checked().map(|x| hex(x.as_bytes()))));
             t.push(format!("to-windows {} {:?}", hex(p.with_windows_encoding().as_bytes()), p.with_windows_encoding_checked().map(|x| hex(x.as_bytes()))));
             extras_bytes!(t, p, UnixPathBuf::from(s.as_slice()));
+            t.push(format!("x.with_capacity {}", { let mut b = UnixPathBuf::with_capacity(9); b.push(p); hex(b.as_bytes()) }));
         }
         t
     })
@@ -483,8 +496,10 @@ fn t_utf8(win: bool, s: &str, a: &str) -> Vec<String> {
             t.push(format!("to-windows {} {:?}", hex(&p.with_windows_encoding().tob()), p.with_windows_encoding_checked().map(|x| hex(&x.tob()))));
             let c = p.components();
             t.push(format!("wq {} {} {} {} {}", c.has_prefix(), c.has_any_verbatim_prefix(), c.has_physical_root(), c.has_implicit_root(), c.prefix().map(|x| hex(&x.as_str().tob())).unwrap_or_default()));
+            t.push(format!("wq-kinds {}{}{}{}{}{} {:?}", c.has_verbatim_prefix() as u8, c.has_verbatim_unc_prefix() as u8, c.has_verbatim_disk_prefix() as u8, c.has_device_ns_prefix() as u8, c.has_unc_prefix() as u8, c.has_disk_prefix() as u8, c.prefix().map(|x| x.kind().is_verbatim())));
             t.push(wq_partial_utf8(&s));
             extras_utf8!(t, p, Utf8WindowsPathBuf::from(s.as_str()));
+            t.push(format!("x.with_capacity {}", { let mut b = Utf8WindowsPathBuf::with_capacity(9); b.push(p); hex(b.as_str().as_bytes()) }));
         } else {
             transcript_path!(t, Utf8UnixPath::new(&s), a.as_str(), win);
             transcript_buf!(t, Utf8UnixPathBuf::from(s.as_str()), a.as_str(), win);
@@ -499,6 +514,7 @@ fn t_utf8(win: bool, s: &str, a: &str) -> Vec<String> {
             t.push(format!("to-unix {} {:?}", hex(&p.with_unix_encoding().tob()), p.with_unix_encoding_checked().map(|x| hex(&x.tob()))));
             t.push(format!("to-windows {} {:?}", hex(&p.with_windows_encoding().tob()), p.with_windows_encoding_checked().map(|x| hex(&x.tob()))));
             extras_utf8!(t, p, Utf8UnixPathBuf::from(s.as_str()));
+            t.push(format!("x.with_capacity {}", { let mut b = Utf8UnixPathBuf::with_capacity(9); b.push(p); hex(b.as_str().as_bytes()) }));
         }
         t
     })
@@ -681,6 +697,7 @@ fn t_typed(win: bool, s: &[u8], a: &[u8]) -> Vec<String> {
             let wp = WindowsPath::new(&s);
             let c = wp.components();
             t.push(format!("wq {} {} {} {} {}", c.has_prefix(), c.has_any_verbatim_prefix(), c.has_physical_root(), c.has_implicit_root(), c.prefix().map(|x| hex(x.as_bytes())).unwrap_or_default()));
+            t.push(format!("wq-kinds {}{}{}{}{}{} {:?}", c.has_verbatim_prefix() as u8, c.has_verbatim_unc_prefix() as u8, c.has_verbatim_disk_prefix() as u8, c.has_device_ns_prefix() as u8, c.has_unc_prefix() as u8, c.has_disk_prefix() as u8, c.prefix().map(|x| x.kind().is_verbatim())));
             t.push(wq_partial_bytes(s.as_ref()));
         }
         t
@@ -733,6 +750,7 @@ fn t_typed8(win: bool, s: &str, a: &str) -> Vec<String> {
             let wp = WindowsPath::new(s.as_bytes());
             let c = wp.components();
             t.push(format!("wq {} {} {} {} {}", c.has_prefix(), c.has_any_verbatim_prefix(), c.has_physical_root(), c.has_implicit_root(), c.prefix().map(|x| hex(x.as_bytes())).unwrap_or_default()));
+            t.push(format!("wq-kinds {}{}{}{}{}{} {:?}", c.has_verbatim_prefix() as u8, c.has_verbatim_unc_prefix() as u8, c.has_verbatim_disk_prefix() as u8, c.has_device_ns_prefix() as u8, c.has_unc_prefix() as u8, c.has_disk_prefix() as u8, c.prefix().map(|x| x.kind().is_verbatim())));
             t.push(wq_partial_bytes(s.as_bytes()));
         }
         t
@@ -886,6 +904,55 @@ pub fn c15(ctx: &mut Ctx, tier: &str, seed: u64) {
                 }
             }
         }
+        // concrete -> typed conversions and the encoding-label tests of the concrete types
+        {
+            ctx.evals += 1;
+            let (u, w) = (UnixPath::new(s), WindowsPath::new(s));
+            let ok = u.has_unix_encoding() && !u.has_windows_encoding() && w.has_windows_encoding() && !w.has_unix_encoding()
+                && u.to_typed_path() == TypedPath::Unix(u) && w.to_typed_path() == TypedPath::Windows(w)
+                && u.to_typed_path().is_unix() && w.to_typed_path().is_windows()
+                && u.to_typed_path_buf() == TypedPathBuf::Unix(u.to_path_buf()) && w.to_typed_path_buf() == TypedPathBuf::Windows(w.to_path_buf())
+                && u.to_typed_path_buf().is_unix() && w.to_typed_path_buf().is_windows()
+                && u.to_typed_path().as_bytes() == s.as_slice() && w.to_typed_path_buf().as_bytes() == s.as_slice();
+            if !ok {
+                ctx.fail("concrete-to-typed", None, format!("derive {}", hex(s)), String::new());
+            }
+            if let Ok(st) = std::str::from_utf8(s) {
+                let (u, w) = (Utf8UnixPath::new(st), Utf8WindowsPath::new(st));
+                // the unchecked constructors are the identity on valid UTF-8
+                let (ub, wb) = (UnixPath::new(s), WindowsPath::new(s));
+                let uu: &Utf8UnixPath = unsafe { Utf8UnixPath::from_bytes_path_unchecked(ub) };
+                let wu: &Utf8WindowsPath = unsafe { Utf8WindowsPath::from_bytes_path_unchecked(wb) };
+                let ubuf = unsafe { Utf8UnixPathBuf::from_bytes_path_buf_unchecked(ub.to_path_buf()) };
+                let wbuf = unsafe { Utf8WindowsPathBuf::from_bytes_path_buf_unchecked(wb.to_path_buf()) };
+                let ok = u.has_unix_encoding() && !u.has_windows_encoding() && w.has_windows_encoding() && !w.has_unix_encoding()
+                    && u.to_typed_path() == Utf8TypedPath::Unix(u) && w.to_typed_path() == Utf8TypedPath::Windows(w)
+                    && u.to_typed_path_buf() == Utf8TypedPathBuf::Unix(u.to_path_buf()) && w.to_typed_path_buf() == Utf8TypedPathBuf::Windows(w.to_path_buf())
+                    && u.to_typed_path().as_str() == st && w.to_typed_path_buf().as_str() == st
+                    && uu.as_str() == st && wu.as_str() == st && ubuf.as_str() == st && wbuf.as_str() == st;
+                if !ok {
+                    ctx.fail("utf8-concrete-to-typed", None, format!("derive {}", hex(s)), String::new());
+                }
+                // components built without a check are what parsing yields
+                for (bc, c) in ub.components().zip(u.components()) {
+                    if unsafe { Utf8UnixComponent::from_utf8_unchecked(&bc) } != c {
+                        ctx.fail("utf8-component-unchecked", None, format!("comps u {}", hex(s)), c.as_str().to_string());
+                    }
+                }
+                for (bc, c) in wb.components().zip(w.components()) {
+                    let back = unsafe { Utf8WindowsComponent::from_utf8_unchecked(&bc) };
+                    if back != c {
+                        ctx.fail("utf8-component-unchecked", None, format!("comps w {}", hex(s)), c.as_str().to_string());
+                    }
+                    if let (WindowsComponent::Prefix(bp), Utf8WindowsComponent::Prefix(up)) = (&bc, &c) {
+                        let p2 = unsafe { typed_path::Utf8WindowsPrefixComponent::from_utf8_unchecked(bp) };
+                        if p2 != *up || unsafe { Utf8WindowsPrefix::from_utf8_unchecked(&bp.kind()) } != up.kind() {
+                            ctx.fail("utf8-component-unchecked", None, format!("comps w {}", hex(s)), c.as_str().to_string());
+                        }
+                    }
+                }
+            }
+        }
         // From / TryFrom round trips keep bytes and variant
         for win in [false, true] {
             let tb = if win { TypedPathBuf::from_windows(s) } else { TypedPathBuf::from_unix(s) };
@@ -1005,6 +1072,26 @@ pub fn c19(ctx: &mut Ctx, tier: &str, _seed: u64) {
     use std::sync::Arc;
     let t = tier_is_thorough(tier);
     let dom = strings_b(b"/a.\\\xc3\xa9\xff\xe2\x82\xac", if t { 5 } else { 4 });
+    // the process-level helpers hand out std's answers, byte for byte, in the native encoding
+    #[cfg(all(feature = "std", unix))]
+    {
+        use std::os::unix::ffi::OsStrExt;
+        let pairs: Vec<(&str, Option<Vec<u8>>, Option<Vec<u8>>, Option<Vec<u8>>)> = vec![
+            ("current_dir", std::env::current_dir().ok().map(|p| p.as_os_str().as_bytes().to_vec()),
+             typed_path::utils::current_dir().ok().map(|p| p.into_vec()), typed_path::utils::utf8_current_dir().ok().map(|p| p.into_string().into_bytes())),
+            ("current_exe", std::env::current_exe().ok().map(|p| p.as_os_str().as_bytes().to_vec()),
+             typed_path::utils::current_exe().ok().map(|p| p.into_vec()), typed_path::utils::utf8_current_exe().ok().map(|p| p.into_string().into_bytes())),
+            ("temp_dir", Some(std::env::temp_dir().as_os_str().as_bytes().to_vec()),
+             typed_path::utils::temp_dir().ok().map(|p| p.into_vec()), typed_path::utils::utf8_temp_dir().ok().map(|p| p.into_string().into_bytes())),
+        ];
+        for (name, want, got, got8) in pairs {
+            ctx.evals += 1;
+            let want8 = want.clone().filter(|w| std::str::from_utf8(w).is_ok());
+            if want != got || want8 != got8 {
+                ctx.fail("utils-equal-std-env", None, format!("tx bytes u {} {}", hex(b"."), hex(b"")), format!("{}: std {:?} typed-path {:?} utf8 {:?}", name, want.as_ref().map(|v| lossy(v)), got.as_ref().map(|v| lossy(v)), got8.as_ref().map(|v| lossy(v))));
+            }
+        }
+    }
     macro_rules! chains {
         ($ctx:ident, $s:expr, $P:ty, $B:ty, $e:expr) => {{
             let s: &Vec<u8> = $s;
